@@ -12,7 +12,7 @@ pub fn property() -> Property {
     Property {
         id: "C09",
         rule: "builder scenarios with emphasis on Plutus spends / mints / certificates / withdrawals / votes / proposals, datums by value / reference / inline, extra datums, cost models for V1-V3 in varying insertion order; calc_script_data_hash is issued after the last script operation. Oracle: body key 11 equals blake2b256(redeemer bytes | datum bytes | language views of the languages in use) recomputed from the emitted witness set, body key 7 equals blake2b256 of the attached auxiliary-data bytes. Non-trivial = >= 2 redeemers, or >= 1 datum with >= 1 redeemer, or the no-redeemer form; distinct by built bytes",
-        assumptions: vec!["scenarios: tape-decoded protocol parameters, keyring of 6 keys + 2 Byron roots, pools of 5 native and 5 Plutus scripts and 4 datums (overlaps between sources are common), a UTxO universe the scenario owns, and a sequence of builder operations (inputs by every public route, outputs, certificates of 17 shapes with key / native / Plutus credentials, withdrawals, mint and burn, votes, proposals, required signers, reference inputs, extra datums, auxiliary data, ttl, donation, collateral and its helper routes, fee requests, calc_script_data_hash, one of 7 balancing routes incl. the 4 coin-selection strategies), then build_tx / build / build_tx_unsafe".into(), "operations the library rejects with Err are recorded and skipped: the properties are conditional on success".into(), "UTxO values, owners and reference scripts come from the scenario's own map; sums, sizes, deposits, fees and hashes are recomputed from the emitted bytes by the engine (cbor.rs, ledger.rs), never asked from the library".into(), "a UTxO that carries a reference script is only spent through the add_regular_utxo route (the other input adders have no parameter to declare its script size)".into(), "stand-alone helpers (sub-check helpers): hash_script_data for 0-3 generated redeemers, no datums or 1-3 datums, and cost models for any subset of V1-V3 (0-166 values each, negative and 64-bit values included) is compared with blake2b256(redeemer bytes | datum bytes | language views) where the redeemer and datum bytes are cut out of a witness set holding the same values (engine's CBOR reader), the language views come from ledger.rs, and the documented no-redeemer form A0 | datums | A0 applies when there are no redeemers; hash_auxiliary_data / hash_plutus_data are compared with blake2b256 of the bytes cut out of a serialized transaction / witness set. An empty datum list is outside the generated domain (the witness set omits it)".into(), "language views are re-implemented in ledger.rs (V1: key 41 00, value = byte string wrapping an indefinite list; V2/V3: uint key, definite list; canonical key order)".into()],
+        assumptions: vec!["scenarios: tape-decoded protocol parameters, keyring of 6 keys + 2 Byron roots, pools of 5 native and 5 Plutus scripts and 4 datums, each also decoded from a second, non-canonical encoding (overlaps between sources are common; the Redeemer objects handed to the builder carry placeholder tags and indices; a reference input may be registered twice, plainly and with its script size), a UTxO universe the scenario owns, and a sequence of builder operations (inputs by every public route, outputs, certificates of 17 shapes with key / native / Plutus credentials, withdrawals, mint and burn, votes, proposals, required signers, reference inputs, extra datums, auxiliary data, ttl, donation, collateral and its helper routes, fee requests, calc_script_data_hash, one of 7 balancing routes incl. the 4 coin-selection strategies), then build_tx / build / build_tx_unsafe".into(), "operations the library rejects with Err are recorded and skipped: the properties are conditional on success".into(), "UTxO values, owners and reference scripts come from the scenario's own map; sums, sizes, deposits, fees and hashes are recomputed from the emitted bytes by the engine (cbor.rs, ledger.rs), never asked from the library".into(), "a UTxO that carries a reference script is only spent through the add_regular_utxo route (the other input adders have no parameter to declare its script size)".into(), "stand-alone helpers (sub-check helpers): hash_script_data for 0-3 generated redeemers, no datums or 1-3 datums, and cost models for any subset of V1-V3 (0-166 values each, negative and 64-bit values included) is compared with blake2b256(redeemer bytes | datum bytes | language views) where the redeemer and datum bytes are cut out of a witness set holding the same values (engine's CBOR reader), the language views come from ledger.rs, and the documented no-redeemer form A0 | datums | A0 applies when there are no redeemers; hash_auxiliary_data / hash_plutus_data are compared with blake2b256 of the bytes cut out of a serialized transaction / witness set. An empty datum list is outside the generated domain (the witness set omits it)".into(), "language views are re-implemented in ledger.rs (V1: key 41 00, value = byte string wrapping an indefinite list; V2/V3: uint key, definite list; canonical key order)".into()],
         subchecks: vec![SubCheck { name: "scenario", kind: Kind::Tape { quick: 400000, thorough: 10000000, max_len: 500 }, run: super::builder::c09_case }, SubCheck { name: "helpers", kind: Kind::Tape { quick: 400_000, thorough: 12_000_000, max_len: 300 }, run: helpers }],
         crash_prone: false,
         max_reject_fraction: 0.1,
